@@ -35,6 +35,12 @@ class Environment:
     def copy_type(self, origin, dest):
         self.types[dest] = self.types[origin]
 
+        # dest is now the value of origin: a constant if (and only if) origin is one
+        if origin in self.constants:
+            self.constants[dest] = self.constants[origin]
+        else:
+            self.constants.pop(dest, None)
+
     def get_type(self, name):
         return self.types.get(name)
 
